@@ -121,7 +121,30 @@ type c10Case struct {
 	// … not the function itself: another goroutine, while the wait that follows is in progress
 	// (same observable behaviour: the model line is the same)
 	ivxWait bool
+	// round 5: the body KIND changes while the call is in flight — an OnBeforeRequest middleware
+	// installs an io.Reader body (`R<text>@<j>`) or a non-rewindable file reader (`F<text>@<j>`) when
+	// it sees attempt number j (hooks do the same with actions R<hex> / F<hex>)
+	pre string
+	// multipart written through a pipe (EnableForceChunkedEncoding) instead of a buffer: same wire content
+	chunked bool
 }
+
+// brokenContract: an upload whose caller-written GetFileContent hands out the same NON-seekable
+// reader every time: retries upload an empty part (the caller's side of the contract; modelled,
+// exempt from the "all attempts identical" oracles).
+func (tc *c10Case) brokenContract() bool {
+	for _, f := range tc.files {
+		if f.kind == "q" {
+			return true
+		}
+	}
+	return false
+}
+
+// c10Shared is a caller-owned reader handed out by GetFileContent on every call: Close does nothing.
+type c10Shared struct{ io.ReadSeeker }
+
+func (c10Shared) Close() error { return nil }
 
 // dynamic: the retry option / context is edited while the call is in flight, or the Request is re-sent.
 func (tc *c10Case) dynamic() bool {
@@ -221,6 +244,11 @@ func (tc *c10Case) line(lane, mask string, obs []int64) string {
 	if tc.ivx > 0 {
 		ivx = strconv.Itoa(tc.ivx)
 	}
+	pre := "-"
+	if tc.pre != "" {
+		body, at, _ := strings.Cut(tc.pre[1:], "@")
+		pre = tc.pre[:1] + verifh.Hex(body) + "@" + at
+	}
 	urlT, rawQ := tc.urlTemplate()
 	script := make([]string, len(tc.script))
 	sets := make([]string, len(tc.script))
@@ -242,7 +270,7 @@ func (tc *c10Case) line(lane, mask string, obs []int64) string {
 		c10Pairs(tc.cCookies), c10Multi(tc.cHeaders), c10Multi(tc.cForm), c10Multi(tc.cQuery), b2(tc.allowGet),
 		verifh.Hex(tc.method), urlT, c10Pairs(tc.cookies), c10Multi(tc.headers), c10Multi(tc.form),
 		c10Pairs(tc.ordered), c10Multi(tc.query), b2(tc.multipart), files, body, tc.resendTok(), ivx,
-		c10Pairs(rawQ), c10Pairs(tc.pathParams), c10Pairs(tc.cPathParams), verifh.Hex(tc.baseURL), verifh.Hex(tc.scheme), c10Toks(sets), c10Obs(tc.obsDump), c10Obs(tc.obsTrace), map[bool]string{true: "-", false: "1"}[tc.noBodyObs]}, " ")
+		c10Pairs(rawQ), c10Pairs(tc.pathParams), c10Pairs(tc.cPathParams), verifh.Hex(tc.baseURL), verifh.Hex(tc.scheme), c10Toks(sets), c10Obs(tc.obsDump), c10Obs(tc.obsTrace), map[bool]string{true: "-", false: "1"}[tc.noBodyObs], pre}, " ")
 }
 
 // urlTemplate splits the RawURL of the case into what the model is given: how it starts, the path
@@ -415,6 +443,23 @@ type c10Run struct {
 	sendStart   []int        // index into log where each Do call begins
 	sendStartRA []int        // RetryAttempt when each Do call begins
 	sendWires   []int        // len(wires) when each Do call begins
+	unrepAt     int          // len(wires) when a callback installed an unreplayable body / upload, +1 (0: never)
+}
+
+// install: a middleware / hook changes the KIND of the body while the call is in flight.
+func (x *c10Run) install(kind byte, text string) {
+	x.mutated = true
+	switch kind {
+	case 'R':
+		x.req.SetBody(bytes.NewBufferString(text))
+	case 'F':
+		x.req.SetFileReader("hp", "h.txt", bytes.NewBufferString(text))
+	default:
+		panic("c10: bad install " + string(kind))
+	}
+	if x.unrepAt == 0 {
+		x.unrepAt = len(x.wires) + 1
+	}
 }
 
 func (x *c10Run) outcome(i int) string {
@@ -458,6 +503,9 @@ func (x *c10Run) RoundTrip(r *http.Request) (*http.Response, error) {
 		return nil, &c10Err{"d", ra, context.DeadlineExceeded}
 	case 'L': // the response arrives, then the caller cancels the context
 		x.ctx.finish(context.Canceled)
+	case 'T': // a transport error that has nothing to do with the context; the caller cancels right after
+		x.ctx.finish(context.Canceled)
+		return nil, &c10Err{"t", ra, nil}
 	}
 	code, _ := strconv.Atoi(o[1:])
 	content := "ok"
@@ -629,6 +677,10 @@ func (x *c10Run) hookStub(id int) RetryHookFunc {
 			x.req.SetBodyBytes([]byte(verifh.UnHex(a[1:])))
 			return
 		}
+		if a[0] == 'R' || a[0] == 'F' {
+			x.install(a[0], verifh.UnHex(a[1:]))
+			return
+		}
 		k, v, _ := strings.Cut(a[1:], ":")
 		k, v = verifh.UnHex(k), verifh.UnHex(v)
 		switch a[0] {
@@ -743,6 +795,12 @@ func (x *c10Run) build(dir string) (*Client, *Request) {
 		if x.outcome(x.iter-1) == "e" {
 			return &c10Err{"e", r.RetryAttempt, nil}
 		}
+		if p := tc.pre; p != "" {
+			body, at, _ := strings.Cut(p[1:], "@")
+			if j, _ := strconv.Atoi(at); j == r.RetryAttempt {
+				x.install(p[0], body)
+			}
+		}
 		return nil
 	})
 	hasZ := false
@@ -842,6 +900,9 @@ func (x *c10Run) build(dir string) (*Client, *Request) {
 	if tc.multipart {
 		r.EnableForceMultipart()
 	}
+	if tc.chunked {
+		r.EnableForceChunkedEncoding()
+	}
 	for i, f := range tc.files {
 		content := f.content
 		switch f.kind {
@@ -860,6 +921,14 @@ func (x *c10Run) build(dir string) (*Client, *Request) {
 				panic(err)
 			}
 			r.SetFile(f.param, p)
+		case "k": // SetFileUpload, GetFileContent hands out the SAME seekable reader every time
+			sh := c10Shared{strings.NewReader(content)}
+			r.SetFileUpload(FileUpload{ParamName: f.param, FileName: f.name, ContentType: f.ctype,
+				GetFileContent: func() (io.ReadCloser, error) { return sh, nil }})
+		case "q": // … the same reader, not seekable
+			sh := io.NopCloser(bytes.NewBufferString(content))
+			r.SetFileUpload(FileUpload{ParamName: f.param, FileName: f.name, ContentType: f.ctype,
+				GetFileContent: func() (io.ReadCloser, error) { return sh, nil }})
 		case "s":
 			r.SetFileReader(f.param, f.name, strings.NewReader(content))
 		case "r":
@@ -1183,6 +1252,11 @@ func (x *c10Run) oracle() (ok bool, why string) {
 	if x.keptBad != "" {
 		return fail(x.keptBad)
 	}
+	// a body that cannot be sent again, installed by a callback while the call was in flight: the
+	// attempt that reads it is the last one
+	if x.unrepAt > 0 && len(x.wires) > x.unrepAt {
+		return fail(fmt.Sprintf("%d attempts although an unreplayable body / upload was installed in flight before attempt %d went out", len(x.wires), x.unrepAt-1))
+	}
 	if tc.dynamic() {
 		return x.oracleDyn()
 	}
@@ -1208,7 +1282,7 @@ func (x *c10Run) oracle() (ok bool, why string) {
 	}
 	// every attempt identical unless a hook edited the request — apart from the cookies the origin
 	// itself has stored in the jar meanwhile, which must be exactly those
-	if !x.mutated {
+	if !x.mutated && !tc.brokenContract() {
 		names := tc.jarNames()
 		w0, _ := c10SplitJar(x.wires0(), names)
 		for i := 1; i < len(x.wires); i++ {
@@ -1226,7 +1300,7 @@ func (x *c10Run) oracle() (ok bool, why string) {
 	if x.iter >= 1 && x.iter-1 < len(tc.script) {
 		lastOut = tc.script[x.iter-1]
 	}
-	ctxDoneLast := lastOut == "D" || (lastOut != "" && lastOut[0] == 'L')
+	ctxDoneLast := lastOut == "D" || lastOut == "T" || (lastOut != "" && lastOut[0] == 'L')
 	// a wait that finds the context done follows one more round of hooks + interval call
 	if x.enabled && len(x.ivAtt) != retries && !(ctxDoneLast && len(x.ivAtt) == retries+1) {
 		return fail(fmt.Sprintf("%d interval calls for %d retries", len(x.ivAtt), retries))
@@ -1260,10 +1334,10 @@ func (x *c10Run) oracle() (ok bool, why string) {
 	last := x.iter - 1
 	for k := 0; k <= last && k < len(tc.script); k++ {
 		o := tc.script[k]
-		if k < last && (o == "c" || o == "e" || o == "D" || o[0] == 'L') {
+		if k < last && (o == "c" || o == "e" || o == "D" || o == "T" || o[0] == 'L') {
 			return fail(fmt.Sprintf("attempt after outcome %s of iteration %d (context done / middleware error)", o, k))
 		}
-		if noConds && x.enabled && o != "c" && o != "e" && o != "D" && o[0] != 'L' {
+		if noConds && x.enabled && x.unrepAt == 0 && o != "c" && o != "e" && o != "D" && o != "T" && o[0] != 'L' {
 			abort := false
 			for _, p := range tc.after {
 				// the stub predicates only read status / error presence / attempt number
@@ -1422,7 +1496,7 @@ func (x *c10Run) oracleDyn() (bool, string) {
 				}
 			}
 		}
-		if !x.mutated {
+		if !x.mutated && !tc.brokenContract() {
 			names := tc.jarNames()
 			for i := x.sendWires[si] + 1; i < wEnd; i++ {
 				a, _ := c10SplitJar(x.wires[i], names)
@@ -1603,7 +1677,7 @@ func c10Exec(tc *c10Case, dir string) c10Rec {
 
 // ---------------------------------------------------------------------------- generators
 
-var c10Alphabet = []string{"s200", "s503", "t", "c", "z", "e", "b500", "d", "D", "L503", "s404", "b200", "s301", "s429", "L200"}
+var c10Alphabet = []string{"s200", "s503", "t", "c", "z", "e", "b500", "d", "D", "L503", "s404", "b200", "s301", "s429", "L200", "T"}
 
 func c10Simple() *c10Case {
 	return &c10Case{allowGet: true, method: "GET", url: "http://c10.test/p", body: "n"}
@@ -1646,6 +1720,12 @@ func TestVerif_C10_loop(t *testing.T) {
 	}
 	gen(c10Alphabet[:10], verifh.N(3, 4), nil)
 	gen([]string{"s200", "s503", "t", "c"}, verifh.N(4, 6), nil)
+	// error KIND of the attempt x STATE of the request's context when the decision is made: a
+	// transport error / an error matching DeadlineExceeded (the client's per-attempt timeout, a dial
+	// or TLS timeout) with the context alive (t, d), the same with the context done (T, D), the
+	// context's own cancellation (c), a response with the context done (L) — the decision must read
+	// the context, never the kind of the error
+	gen([]string{"t", "d", "T", "D", "c", "L503", "s503", "s200"}, verifh.N(2, 3), nil)
 	seen := map[string]bool{}
 	for _, sq := range seqs {
 		key := strings.Join(sq, ",")
@@ -2283,7 +2363,10 @@ func c10RandShape(r interface{ Intn(int) int }, tc *c10Case, origin string, scri
 		mode = "multipart-files"
 		for i := 0; i < 1+r.Intn(3); i++ {
 			f := c10File{param: "p" + strconv.Itoa(i), name: "f" + strconv.Itoa(i) + ".txt", content: c10Text(strings.Repeat(c10Word(r, true), 1+r.Intn(3)))}
-			switch k := r.Intn(23); {
+			// content SOURCES: a fresh reader per call (b, p reopens), the same seekable reader
+			// (s through SetFileReader, k through a caller-written GetFileContent), the same reader
+			// that cannot be rewound (r, o: refused when retries are on; q: caller-written)
+			switch k := r.Intn(30); {
 			case k < 6:
 				f.kind = "b"
 				if r.Intn(3) == 0 {
@@ -2295,8 +2378,15 @@ func c10RandShape(r interface{ Intn(int) int }, tc *c10Case, origin string, scri
 				f.kind = "s"
 			case k < 20:
 				f.kind = "r"
-			default:
+			case k < 23:
 				f.kind = "o"
+			case k < 28:
+				f.kind = "k"
+				if r.Intn(4) == 0 {
+					f.ctype = "application/x-custom"
+				}
+			default:
+				f.kind = "q"
 			}
 			if r.Intn(12) == 0 {
 				f.content = c10Text(strings.Repeat("0123456789abcdef", 40)) // longer than the 512-byte sniff
@@ -2315,6 +2405,8 @@ func c10RandShape(r interface{ Intn(int) int }, tc *c10Case, origin string, scri
 		tc.multipart = true
 		tc.form = form("f")
 	}
+	// buffered or streamed (a pipe written by a goroutine, chunked on the wire): same content
+	tc.chunked = tc.multipart && r.Intn(3) == 0
 	// client-level form data (merged once; since /repo c422765 also into multipart requests)
 	if r.Intn(3) == 0 {
 		tc.cForm = form([]string{"cf", "f"}[r.Intn(2)])
@@ -2383,6 +2475,68 @@ func TestVerif_C10_wire(t *testing.T) {
 			}
 		}
 	}
+	// file content SOURCES x retries x buffered / streamed multipart, systematically: every source
+	// kind alone and next to a second upload, sniffed and explicit part type, short and > 512 bytes
+	for _, kind := range []string{"b", "p", "s", "k", "q", "r", "o"} {
+		for _, chunked := range []bool{false, true} {
+			for _, cnt := range []string{"n=2", "n=-1", "n=0", ""} {
+				for v := 0; v < 3; v++ {
+					tc := &c10Case{allowGet: true, method: "POST", url: "http://c10.test/up", body: "n", multipart: true, chunked: chunked,
+						script: []string{"t", "s503", "t", "s200", "c"}, conds: []string{"E", "G500"}}
+					if cnt != "" {
+						tc.reqOps = []string{cnt, "i=x0", "ac0", "ac1"}
+					}
+					f := c10File{param: "p0", name: "f0.txt", kind: kind, content: c10Text("content-of-the-upload")}
+					switch v {
+					case 1:
+						f.content = c10Text(strings.Repeat("0123456789abcdef", 200)) // 3200 bytes: past the 512-byte sniff
+						if kind == "b" || kind == "k" || kind == "q" {
+							f.ctype = "application/x-custom"
+						}
+					case 2:
+						tc.files = append(tc.files, c10File{param: "first", name: "a.txt", kind: "b", content: c10Text("first-upload")})
+						tc.form = []c10KV{{"f0", []string{"v"}}}
+					}
+					tc.files = append(tc.files, f)
+					add(tc, "sources:"+kind)
+					count(fmt.Sprintf("sources:chunked=%v", chunked))
+				}
+			}
+		}
+	}
+	// the body KIND changes while the call is in flight: an io.Reader body / a non-rewindable file
+	// reader installed by an OnBeforeRequest middleware at attempt j, or by a retry hook — Do's
+	// up-front check has passed, the loop's own check must stop the retries after the attempt that
+	// read it (without bound otherwise for a negative count)
+	for _, shape := range []string{"n", "bbytes-body", "ufrom-getbody", "form", "fields"} {
+		for _, inst := range []string{"hR", "hF", "pR@0", "pR@1", "pR@2", "pF@0", "pF@1"} {
+			for _, cnt := range []string{"n=-1", "n=2", "n=5", "n=1"} {
+				if inst == "pR@0" && shape[0] == 'b' {
+					continue // r.Body still holds the bytes set before: the sniffed Content-Type is theirs (not modelled)
+				}
+				tc := &c10Case{allowGet: true, method: []string{"POST", "PUT", "PATCH"}[len(recs)%3], url: "http://c10.test/kind", body: "n",
+					script: []string{"t", "s503", "t", "t", "s200", "c"}, conds: []string{"E", "G500"}, reqOps: []string{cnt, "i=x0", "ac0", "ac1"}}
+				switch shape {
+				case "form":
+					tc.form = []c10KV{{"f0", []string{"v"}}}
+				case "fields":
+					tc.multipart = true
+					tc.form = []c10KV{{"f0", []string{"v"}}}
+				default:
+					tc.body = shape
+				}
+				text := c10Text("installed-in-flight")
+				if inst[0] == 'h' {
+					tc.hooks = []string{inst[1:2] + verifh.Hex(text)}
+					tc.reqOps = append(tc.reqOps, "ah0")
+				} else {
+					tc.pre = inst[1:2] + text + inst[2:]
+				}
+				add(tc, "kind-changed")
+				count("kind-changed:" + inst)
+			}
+		}
+	}
 	n := verifh.N(3000, 150000)
 	for i := 0; i < n; i++ {
 		tc := &c10Case{}
@@ -2407,7 +2561,7 @@ func TestVerif_C10_wire(t *testing.T) {
 				tc.script = append(tc.script, []string{"t", "t", "d", "b500", "z"}[r.Intn(5)])
 			}
 		}
-		tc.script = append(tc.script, []string{"s200", "s200", "s404", "t"}[r.Intn(4)], "c")
+		tc.script = append(tc.script, []string{"s200", "s200", "s404", "t", "T", "s200"}[r.Intn(6)], "c")
 		if r.Intn(5) == 0 {
 			// the origin sets / replaces / expires cookies: the jar's cookies go out with the NEXT attempt
 			for j, o := range tc.script {
@@ -2457,6 +2611,30 @@ func TestVerif_C10_wire(t *testing.T) {
 		if r.Intn(10) == 0 {
 			tc.after = []string{"F"}
 		}
+		// the body kind changed in flight, on random shapes (not where a marshalled / reader body or a
+		// payload-forbidden method decides what is sent: see the notes)
+		if payload := tc.method == "POST" || tc.method == "PUT" || tc.method == "PATCH"; payload && len(tc.hooks) == 0 && len(tc.resend) == 0 &&
+			(tc.body[0] == 'n' || tc.body[0] == 'b' || tc.body[0] == 'u') && r.Intn(8) == 0 {
+			text := c10Text(c10Word(r, true))
+			kind := []string{"R", "F"}[r.Intn(2)]
+			if r.Intn(2) == 0 {
+				tc.hooks = []string{kind + verifh.Hex(text)}
+				tc.reqOps = append(tc.reqOps, "ah0")
+			} else {
+				j := r.Intn(3)
+				if j == 0 && kind == "R" && tc.body[0] == 'b' {
+					j = 1
+				}
+				tc.pre = kind + text + "@" + strconv.Itoa(j)
+			}
+			count("kind-changed:random")
+		}
+		if tc.chunked {
+			count("multipart:streamed")
+		}
+		for _, f := range tc.files {
+			count("file-kind:" + f.kind)
+		}
 		// the retry option edited / the context cancelled in flight, on real request shapes
 		c10RandEdits(r, tc, 8)
 		if tc.dynamic() {
@@ -2465,7 +2643,8 @@ func TestVerif_C10_wire(t *testing.T) {
 		add(tc, mode)
 	}
 	for _, need := range []string{"retried:bytes", "retried:form", "retried:ordered", "retried:multipart-files", "retried:multipart-fields", "retried:getbody", "retried:marshal", "retried:marshal-xml", "retried:none", "refused", "mode:reader",
-		"url:r", "url:s", "url:placeholder", "url:raw-query", "multipart+clientform", "header-order", "jar:set-cookie", "resend"} {
+		"url:r", "url:s", "url:placeholder", "url:raw-query", "multipart+clientform", "header-order", "jar:set-cookie", "resend",
+		"retried:sources:k", "retried:sources:q", "retried:sources:s", "retried:sources:p", "retried:sources:b", "sources:chunked=true", "retried:kind-changed", "kind-changed:random", "multipart:streamed", "file-kind:k", "file-kind:q"} {
 		if hist[need] == 0 {
 			t.Errorf("generator never reached bucket %s", need)
 		}
